@@ -1124,10 +1124,18 @@ impl<'r> Gen<'r> {
                         self.feature("switch-fallthrough");
                     }
                 }
-                if self.rng.chance(2, 3) {
-                    out.push_str(&format!("{}default:\n{}{{\n", Self::indent(ind + 1), Self::indent(ind + 1)));
-                    self.block_body(out, ind + 2, depth - 1, 1, 1);
-                    out.push_str(&format!("{}}}\n{}break;\n", Self::indent(ind + 1), Self::indent(ind + 1)));
+                match self.rng.below(6) {
+                    0 | 1 => {}
+                    2 => {
+                        // the last label of the switch is followed by nothing but an empty statement
+                        self.feature("switch-trailing-empty-label");
+                        out.push_str(&format!("{}default: ;\n", Self::indent(ind + 1)));
+                    }
+                    _ => {
+                        out.push_str(&format!("{}default:\n{}{{\n", Self::indent(ind + 1), Self::indent(ind + 1)));
+                        self.block_body(out, ind + 2, depth - 1, 1, 1);
+                        out.push_str(&format!("{}}}\n{}break;\n", Self::indent(ind + 1), Self::indent(ind + 1)));
+                    }
                 }
                 self.in_switch = saved;
                 out.push_str(&format!("{}}}\n", pad));
